@@ -67,6 +67,8 @@ def product_case(g, route, budget):
     ra, ka = content(g, m, l)
     rb, kb = content(g, l, n)
     cut = g.rng.choice(CUTOFFS)
+    if route.endswith("_mp") and g.rng.random() < 0.5:
+        cut = 64        # the four-way split of mp.c is taken only when every dimension is >= 4*cutoff/3
     lines = [g.mat_line("A", m, l, ra), g.mat_line("B", l, n, rb)]
     acc = route.startswith("addmul")
     if acc:
@@ -74,7 +76,7 @@ def product_case(g, route, budget):
         lines.append(g.mat_line("C", m, n, rc))
         lines.append("call %s R C A B %d" % (route, cut))
         lines += ["dump A", "dump B", "dump C"]
-    elif g.rng.random() < 0.5:
+    elif g.rng.random() < 0.7:
         rc, _ = g.rows(m, n, "dense")
         lines.append(g.mat_line("C", m, n, rc))
         lines.append("call %s R C A B %d" % (route, cut))
@@ -107,7 +109,9 @@ def make_cases(seed, tier):
     budget = 2.0e8 if tier == "quick" else 6.0e8
     cs = []
     for route in ("mul_mp", "addmul_mp", "mul", "addmul"):
-        for _ in range(n_prod):
+        # mul_mp most: its remainder strips (rows / columns / inner dimension not multiples of 128) are handled after
+        # the parallel sections and must overwrite, not accumulate into, a supplied destination
+        for _ in range(2 * n_prod if route == "mul_mp" else n_prod):
             cs.append(product_case(g, route, budget))
     for _ in range(n_ech):
         cs.append(echelon_case(g, budget))
